@@ -395,6 +395,19 @@ worker_start(void *thr_ptr)
 					VERIF_EV("WStopAck", thr->coder,
 							VERIF_THR(thr), 0, 0, 0, 0);
 					mythread_cond_signal(&thr->cond);
+
+					// If get_thread() had already given
+					// a Block to this thread (thr->outbuf
+					// is set) but we were told to stop
+					// before we had noticed it, this
+					// thread isn't in the stack of free
+					// threads. Skip the encoding and go
+					// put this thread back to the stack
+					// like is done after encoding a Block.
+					if (thr->outbuf != NULL) {
+						state = THR_STOP;
+						break;
+					}
 				}
 
 				state = thr->state;
@@ -414,7 +427,6 @@ worker_start(void *thr_ptr)
 		size_t out_pos = 0;
 
 		assert(state != THR_IDLE);
-		assert(state != THR_STOP);
 
 		if (state <= THR_FINISH)
 			state = worker_encode(thr, &out_pos, state);
@@ -460,6 +472,11 @@ worker_start(void *thr_ptr)
 			VERIF_EV("WFinCoder", thr->coder, VERIF_THR(thr), state,
 					out_pos, thr->outbuf->uncompressed_size,
 					thr->outbuf->finished);
+
+			// This thread doesn't touch the output buffer or
+			// the coder anymore before it is given a new Block.
+			thr->outbuf = NULL;
+
 			mythread_cond_signal(&thr->coder->cond);
 		}
 	}
@@ -554,6 +571,7 @@ initialize_new_thread(lzma_stream_coder *coder,
 		goto error_cond;
 
 	thr->state = THR_IDLE;
+	thr->outbuf = NULL;
 	thr->allocator = allocator;
 	thr->coder = coder;
 	thr->progress_in = 0;
@@ -1173,13 +1191,6 @@ stream_encoder_mt_init(lzma_next_coder *next, const lzma_allocator *allocator,
 		coder->threads_initialized = 0;
 	}
 
-	// Basic initializations
-	coder->sequence = SEQ_STREAM_HEADER;
-	coder->block_size = (size_t)(block_size);
-	coder->outbuf_alloc_size = (size_t)(outbuf_size_max);
-	coder->thread_error = LZMA_OK;
-	coder->thr = NULL;
-
 	// Allocate the thread-specific base structures.
 	assert(options->threads > 0);
 	if (coder->threads_max != options->threads) {
@@ -1202,7 +1213,35 @@ stream_encoder_mt_init(lzma_next_coder *next, const lzma_allocator *allocator,
 		// Reuse the old structures and threads. Tell the running
 		// threads to stop and wait until they have stopped.
 		threads_stop(coder, true);
+
+		// A thread becomes THR_IDLE slightly before it updates
+		// the progress information, marks its output buffer as
+		// finished, and puts itself back to the stack of free
+		// threads. Wait until all threads have done that so that
+		// none of them touches the coder or the output queue
+		// while those are being reinitialized and reused.
+		mythread_sync(coder->mutex) {
+			while (true) {
+				uint32_t count = 0;
+				for (const worker_thread *t = coder->threads_free;
+						t != NULL; t = t->next)
+					++count;
+
+				if (count == coder->threads_initialized)
+					break;
+
+				mythread_cond_wait(&coder->cond, &coder->mutex);
+			}
+		}
 	}
+
+	// Basic initializations. These are done after the threads have been
+	// stopped because the threads read some of these.
+	coder->sequence = SEQ_STREAM_HEADER;
+	coder->block_size = (size_t)(block_size);
+	coder->outbuf_alloc_size = (size_t)(outbuf_size_max);
+	coder->thread_error = LZMA_OK;
+	coder->thr = NULL;
 
 	// Output queue
 	return_if_error(lzma_outq_init(&coder->outq, allocator,
